@@ -4,7 +4,7 @@
    known q h = bits [0,8q] and [57,63] of h = what a bucket keeps next to an element of class q. *)
 From Coq Require Import ZArith List.
 From MomoCommon Require Import GenPrelude.
-From C12 Require Gen_Base Gen_O2 Gen_O2MP Gen_P4 Gen_One Known P4_Model P4_Slot P4_Bucket O2_Slot Chain O2_Bucket MP_Open2N2 TableO2 TableO2_Proofs TableP4 TableP4_Proofs TableOne TableOne_Proofs Refuted TableO2_Find SameCode Gen_O2set TableP4_Find Gen_P4A P4A_Refine Gen_P4A16 P4A_Refine16 Chains PtrState Gen_Ptr32 Gen_Ptr48 Gen_Ptr64.
+From C12 Require Gen_Base Gen_O2 Gen_O2MP Gen_P4 Gen_One Known P4_Model P4_Slot P4_Bucket O2_Slot Chain O2_Bucket MP_Open2N2 TableO2 TableO2_Proofs TableP4 TableP4_Proofs TableOne TableOne_Proofs Refuted TableO2_Find SameCode Gen_O2set TableP4_Find Gen_P4A P4A_Refine Gen_P4A16 P4A_Refine16 Chains PtrState Gen_Ptr32 Gen_Ptr48 Gen_Ptr64 GensFind.
 Import ListNotations.
 Local Open Scope Z_scope.
 
@@ -844,3 +844,59 @@ Theorem C12_ptrstate64_roundtrip :
     exists m', Gen_Ptr64.SetPtr m ptr s = Ok (tt, m') /\ Gen_Ptr64.GetPointer m' = ptr /\ Gen_Ptr64.GetState m' = s.
 Proof. exact PtrState.ptr64_roundtrip. Qed.
 Print Assumptions C12_ptrstate64_roundtrip.
+
+(* ---------------------------------------------------------------------------------------------------------------
+   Next round. *)
+
+(* the abstraction step of Gen_P4A (member object mPtrState = two scalars), formally, for each of the three real packings:
+   the generated Set with the arguments pvSetPtrState passes succeeds and the generated GetPointer / GetState then return exactly
+   the scalars the model's pvSetPtrState produces; pvGetMemPoolIndex reads the index back. *)
+Theorem C12_ptrstate_two_scalar_abstraction_32 :
+  forall s ptr stt items mpi m, 1 <= mpi <= 4 -> 0 <= items < 2 ^ 32 -> Z.land items 3 = 0 ->
+    let '(s', ptr', stt') := Gen_P4A.pvSetPtrState s ptr stt items mpi in
+    s' = s /\ exists m', Gen_Ptr32.SetPtr m items (wrapU 8 (wrapU 8 (wrapU 8 mpi - 1))) = Ok (tt, m') /\ PtrState.R32 m' ptr' stt' /\
+      Gen_P4A.pvGetMemPoolIndex s' ptr' stt' = mpi.
+Proof. exact PtrState.ptrstate_abstraction32. Qed.
+Print Assumptions C12_ptrstate_two_scalar_abstraction_32.
+
+Theorem C12_ptrstate_two_scalar_abstraction_48 :
+  forall s ptr stt items mpi m, 1 <= mpi <= 4 -> 0 <= items < 2 ^ 48 -> Z.land items 3 = 0 ->
+    let '(s', ptr', stt') := Gen_P4A.pvSetPtrState s ptr stt items mpi in
+    s' = s /\ exists m', Gen_Ptr48.SetPtr m items (wrapU 8 (wrapU 8 (wrapU 8 mpi - 1))) = Ok (tt, m') /\ PtrState.R48 m' ptr' stt' /\
+      Gen_P4A.pvGetMemPoolIndex s' ptr' stt' = mpi.
+Proof. exact PtrState.ptrstate_abstraction48. Qed.
+Print Assumptions C12_ptrstate_two_scalar_abstraction_48.
+
+Theorem C12_ptrstate_two_scalar_abstraction_64 :
+  forall s ptr stt items mpi m, 1 <= mpi <= 4 -> 0 <= items < 2 ^ 64 -> Z.land items 3 = 0 ->
+    let '(s', ptr', stt') := Gen_P4A.pvSetPtrState s ptr stt items mpi in
+    s' = s /\ exists m', Gen_Ptr64.SetPtr m items (wrapU 8 (wrapU 8 (wrapU 8 mpi - 1))) = Ok (tt, m') /\ PtrState.R64 m' ptr' stt' /\
+      Gen_P4A.pvGetMemPoolIndex s' ptr' stt' = mpi.
+Proof. exact PtrState.ptrstate_abstraction64. Qed.
+Print Assumptions C12_ptrstate_two_scalar_abstraction_64.
+
+(* Find across chained generations (LimP4): the modelled HashSet::pvFind(key) -- newest table, then GetNextBuckets() ... --
+   never asserts or runs out of fuel and returns every key stored in ANY generation satisfying its invariant ... *)
+Theorem C12_limp4_find_across_generations :
+  forall H hash key gens, GensFind.pgens_inv H hash gens ->
+    (exists g, In g gens /\ TableP4_Proofs.PPresent (snd g) (fst g) key) ->
+    exists r, TableP4.pfind_gens gens key (hash key) = Ok (Some r) /\ GensFind.pgens_hit gens key r.
+Proof. exact GensFind.pfind_gens_present. Qed.
+Print Assumptions C12_limp4_find_across_generations.
+
+(* ... in particular after a migration interrupted (or not) by a throwing full getter: every key stored anywhere before is
+   returned by Find over the newest table and the remaining older generations *)
+Theorem C12_limp4_find_after_throwing_migration :
+  forall H mm hash, 4 <= H <= 8 -> 1 <= mm <= 4 -> (forall k, 0 <= hash k < 2 ^ 64) ->
+  forall newL budget, 0 <= newL <= 63 -> forall gens tnew calls,
+    TableP4_Proofs.pgens_ok H hash newL gens -> TableP4_Proofs.PTinv H hash newL tnew ->
+    match TableP4.pmigrate_gens H mm hash gens tnew newL budget calls with
+    | Ok (gens', tnew', _, _) =>
+        forall k, TableP4_Proofs.pin_gens gens k \/ TableP4_Proofs.PPresent newL tnew k ->
+          exists r, TableP4.pfind_gens ((tnew', newL) :: rev gens') k (hash k) = Ok (Some r) /\
+                    GensFind.pgens_hit ((tnew', newL) :: rev gens') k r
+    | Exn => True
+    | _ => False
+    end.
+Proof. exact GensFind.pmigrate_gens_find. Qed.
+Print Assumptions C12_limp4_find_after_throwing_migration.
